@@ -3,7 +3,7 @@
 //! on stdout (no allocation, survives the abort that usually follows) and answered with null, so a
 //! hostile 4 GB `with_capacity` never thrashes the shared machine.
 use std::alloc::{GlobalAlloc, Layout, System};
-use std::sync::atomic::{AtomicUsize, Ordering::Relaxed};
+use std::sync::atomic::{AtomicBool, AtomicUsize, Ordering::Relaxed};
 
 pub struct Counting;
 
@@ -13,6 +13,85 @@ pub static MAXREQ: AtomicUsize = AtomicUsize::new(0);
 pub static LIMIT: AtomicUsize = AtomicUsize::new(usize::MAX);
 pub static INPUT: AtomicUsize = AtomicUsize::new(0);
 pub static REFUSED: AtomicUsize = AtomicUsize::new(0);
+
+static REPORTING: AtomicBool = AtomicBool::new(false);
+/// load bias of the executable (runtime address - static address), set once at worker start
+pub static BIAS: AtomicUsize = AtomicUsize::new(0);
+
+/// Call once before accounting starts: glibc's backtrace() loads libgcc on first use (allocates).
+pub fn warm_up() {
+    let mut buf = [std::ptr::null_mut::<libc::c_void>(); 4];
+    unsafe {
+        libc::backtrace(buf.as_mut_ptr(), 4);
+    }
+    // the first mapping of the executable in /proc/self/maps starts at the load bias
+    if let (Ok(maps), Ok(exe)) = (std::fs::read_to_string("/proc/self/maps"), std::env::current_exe()) {
+        let exe = exe.to_string_lossy().to_string();
+        for line in maps.lines() {
+            if line.ends_with(&exe) {
+                if let Some(start) = line.split('-').next().and_then(|x| usize::from_str_radix(x, 16).ok()) {
+                    BIAS.store(start, Relaxed);
+                }
+                break;
+            }
+        }
+    }
+}
+
+/// Record who asked for the refused block: `S <input> <static return addresses...>` (hex, raw
+/// write, no allocation). The parent resolves the distinct addresses once with addr2line and keys
+/// the finding by the first `wow_*` function (no line numbers, so the key survives edits).
+fn report_site() {
+    if REPORTING.swap(true, Relaxed) {
+        return;
+    }
+    let mut frames = [std::ptr::null_mut::<libc::c_void>(); 40];
+    let n = unsafe { libc::backtrace(frames.as_mut_ptr(), 40) } as usize;
+    let bias = BIAS.load(Relaxed);
+    let mut buf = [0u8; 40 * 18 + 40];
+    let mut p = 0;
+    let mut put = |b: u8, p: &mut usize| {
+        if *p < buf.len() {
+            buf[*p] = b;
+            *p += 1;
+        }
+    };
+    put(b'S', &mut p);
+    put(b' ', &mut p);
+    // input index, decimal
+    let mut d = [0u8; 20];
+    let mut k = 0;
+    let mut x = INPUT.load(Relaxed);
+    loop {
+        d[k] = b'0' + (x % 10) as u8;
+        k += 1;
+        x /= 10;
+        if x == 0 {
+            break;
+        }
+    }
+    while k > 0 {
+        k -= 1;
+        put(d[k], &mut p);
+    }
+    for f in frames.iter().take(n) {
+        let a = (*f as usize).wrapping_sub(bias);
+        put(b' ', &mut p);
+        let mut started = false;
+        for sh in (0..16).rev() {
+            let nib = ((a >> (4 * sh)) & 0xF) as u8;
+            if nib != 0 || started || sh == 0 {
+                started = true;
+                put(if nib < 10 { b'0' + nib } else { b'a' + nib - 10 }, &mut p);
+            }
+        }
+    }
+    put(b'\n', &mut p);
+    unsafe {
+        libc::write(1, buf.as_ptr() as *const libc::c_void, p);
+    }
+    REPORTING.store(false, Relaxed);
+}
 
 fn raw_line(tag: u8, a: usize, b: usize) {
     // "<tag> <a> <b>\n" without allocating
@@ -55,6 +134,7 @@ fn note(size: usize) -> bool {
     if size > LIMIT.load(Relaxed) {
         REFUSED.fetch_max(size, Relaxed);
         raw_line(b'H', INPUT.load(Relaxed), size);
+        report_site();
         return false;
     }
     let live = LIVE.fetch_add(size, Relaxed) + size;
@@ -96,6 +176,7 @@ unsafe impl GlobalAlloc for Counting {
         if new > l.size() && new > LIMIT.load(Relaxed) {
             REFUSED.fetch_max(new, Relaxed);
             raw_line(b'H', INPUT.load(Relaxed), new);
+            report_site();
             return std::ptr::null_mut();
         }
         let q = System.realloc(p, l, new);
